@@ -152,9 +152,11 @@ class RecList(list):
         self.log.append(('dm', 1, p))
 
 
-def deliver(wire):
+def deliver(wire, icv=None):
     """pdu.decode + dispatch at a fresh controller; returns canonical list of what reached the SAP layer"""
     rx = L.LogicalLinkController()
+    if icv is not None:
+        rx.sec = TestCipher(icv)
     log = []
     rx.sap = [Recorder(log, i) for i in range(64)]
     try:
@@ -184,6 +186,22 @@ def canon_rx_model(line):
         else:
             out.append((' '.join([pt, da, sa, ns, nr, body]), int(da)))
     return out
+
+
+# ------------------------------------------------------------------ secure data transfer: a test cipher
+class TestCipher(object):
+    """stands in for nfc.llcp.sec.CipherSuite1 (OpenSSL is not available here): what collect()/dispatch() use of
+    llc.sec is icv_size, encrypt(header, plaintext) and decrypt(header, ciphertext); ciphertext = plaintext + ICV"""
+
+    def __init__(self, icv):
+        self.icv_size = icv
+
+    def encrypt(self, a, p):
+        return bytes(p) + b'\xEE' * self.icv_size
+
+    def decrypt(self, a, c):
+        c = bytes(c)
+        return c[:len(c) - self.icv_size] if self.icv_size else c
 
 
 # ------------------------------------------------------------------ limits announced by the peer (monitor side)
@@ -261,6 +279,9 @@ class Sender(object):
             self.llc = L.LogicalLinkController()
             self.llc.cfg['send-miu'] = self.miu
         self.llc.cfg['send-agf'] = bool(agf)
+        self.icv = sc.get('icv')
+        if self.icv is not None:
+            self.llc.sec = TestCipher(self.icv)      # collect() and dispatch() now run their encrypted branches
         self.socks = {}
         self.conn_miu = {}       # (dsap=peer, ssap=addr) -> MIU announced by the peer for that connection
         self.raw_used = False
@@ -548,7 +569,7 @@ def run_scenario(ck, sc, lines, expect, maxframes=8):
         except LenMismatch as e:
             ck.violation('len-mismatch', 'len(pdu) differs from the encoded length: %s' % e, {'scenario': sc})
             return False
-        lines.append('collect fixed %d %d %s' % (miu, int(agf), pre))
+        lines.append('collect fixed %d %d %s %s' % (miu, int(agf), '-' if snd.icv is None else snd.icv, pre))
         if f is None:
             expect.append(('ok none | none | 0 | ' + post, 'collect', sc, k))
             ck.case((miu, agf, pre), False)
@@ -570,36 +591,53 @@ def run_scenario(ck, sc, lines, expect, maxframes=8):
         if snd.raw_used:
             ck.count('raw-excepted-frame:' + ('above-miu' if info > miu else 'within-miu'))
         else:
-            ck.count('frame-info-vs-miu:%+d' % (info - miu) if info - miu >= -8 else 'frame-info-vs-miu:<-8')
+            ck.count(('sec-' if snd.icv is not None else '') + ('frame-info-vs-miu:%+d' % (info - lim) if info - lim >= -8 else 'frame-info-vs-miu:<-8'))
         ck.case((miu, agf, pre), True, {'family': sc['family'], 'miu': miu, 'agf': agf, 'info': info,
                                         'frame': [PTNAME.get(x[0], x[0]) for x in subs]} if (k == 0 and info >= miu - 4) else None)
         # ---------------- monitor
+        icv = snd.icv or 0
+        sec_on = snd.icv is not None
         if not snd.raw_used:
             names = '+'.join(PTNAME.get(x[0], str(x[0])) for x in subs[:3]) + ('+..' if len(subs) > 3 else '')
-            if info > lim:
+            # a single encrypted UI / I PDU carries its ICV on top of a payload of at most MIU octets ("the receiver must
+            # accept them with complete MIU plus ICV size", collect()); every other frame is bounded by the MIU itself
+            allow = lim + (icv if (sec_on and top[0] in (3, 12)) else 0)
+            if info > allow:
                 kind = 'agf' if top[0] == 2 else PTNAME.get(top[0], str(top[0]))
-                ck.violation('frame-exceeds-miu:' + kind,
-                             'collect() returned a %s frame (%s) whose information field of %d bytes exceeds the '
-                             'remote Link MIU %d' % (kind, names, info, lim),
+                ck.violation('frame-exceeds-miu:' + kind + ('-sec' if sec_on else ''),
+                             'collect() returned a %s frame (%s) whose information field of %d bytes%s exceeds the '
+                             'remote Link MIU %d' % (kind, names, info, ' (ICV %d included)' % icv if sec_on else '', lim),
                              {'scenario': sc, 'frame_index': k, 'info': info, 'miu': lim, 'frame': hexs(wire)[:400]})
             for pt, dsap, ssap, body in subs:
-                if pt == 3 and len(body) > lim:
-                    ck.violation('payload-exceeds-miu:UI', 'UI payload of %d bytes above the link MIU %d' % (len(body), lim),
-                                 {'scenario': sc, 'len': len(body), 'miu': lim})
+                plain = len(body) - (icv if sec_on else 0)
+                if pt == 3 and plain > lim:
+                    ck.violation('payload-exceeds-miu:UI', 'UI payload of %d bytes above the link MIU %d' % (plain, lim),
+                                 {'scenario': sc, 'len': plain, 'miu': lim})
                 if pt == 12:
                     climit = snd.conn_miu.get((dsap, ssap))
-                    if climit is None or len(body) > climit:
+                    if climit is None or plain > climit:
                         ck.violation('payload-exceeds-miu:I', 'I payload of %d bytes above the MIU %s announced for the connection'
-                                     % (len(body), climit), {'scenario': sc, 'len': len(body), 'limit': climit})
-        # ---------------- receiver
-        got = deliver(wire)
+                                     % (plain, climit), {'scenario': sc, 'len': plain, 'limit': climit})
+        # ---------------- receiver (decrypts when secure data transfer is on)
+        got = deliver(wire, snd.icv)
         sent = list(f) if f.name == 'AGF' else [f]
-        want = [('cbn', p.ssap) if (p.name == 'CONNECT' and p.dsap == 1) else (a_pdu(p), p.dsap) for p in sent]
+
+        def canon(p, strip):
+            if p.name == 'CONNECT' and p.dsap == 1:
+                return ('cbn', p.ssap)
+            t = a_pdu(p)
+            if strip and p.name in ('UI', 'I'):
+                w = t.split()
+                w[5] = hexs(bytes(p.data)[:len(p.data) - icv])
+                t = ' '.join(w)
+            return (t, p.dsap)
+        want = [canon(p, sec_on) for p in sent]            # what the SAP layer must get: the plaintext PDUs
+        on_wire = [canon(p, False) for p in sent]          # what the model's receiver (no decryption) sees
         if got != want:
             ck.violation('agf-not-transparent', 'the receiving controller did not dispatch exactly the collected PDUs in order',
-                         {'scenario': sc, 'frame_index': k, 'frame': hexs(wire), 'delivered': str(got)[:400], 'collected': str(want)[:400]})
+                         {'scenario': sc, 'frame_index': k, 'frame': hexs(wire)[:400], 'delivered': str(got)[:400], 'collected': str(want)[:400]})
         lines.append('receive ' + hexs(wire))
-        expect.append((got, 'receive', sc, k))
+        expect.append((on_wire, 'receive', sc, k))
         ck.count('receive')
         return True
 
@@ -789,6 +827,11 @@ def gen_threaded(rng):
 
 
 CORPUS = [
+    # secure data transfer: I PDU 10 + I PDU that fits only without its ICV (MIU 128, ICV 4, spare 1 and 4)
+    dict(family='corpus', miu=128, agf=True, icv=4, script=[['dlc', 'c', 40, 16, 128, 4, 1], ['send', 'c', 10, 1], ['send', 'c', 103, 2]]),
+    dict(family='corpus', miu=131, agf=True, icv=4, script=[['dlc', 'c', 40, 16, 131, 4, 1], ['send', 'c', 10, 1], ['send', 'c', 103, 2]]),
+    dict(family='corpus', miu=128, agf=True, icv=4, script=[['ldl', 'a', None], ['sendto', 'a', 10, 16, 1], ['sendto', 'a', 106, 16, 2]]),
+    dict(family='corpus', miu=128, agf=False, icv=4, script=[['ldl', 'a', None], ['sendto', 'a', 128, 16, 1], ['sendto', 'a', 125, 16, 2]]),
     # limits learnt from the peer (general bytes 02 02 08 78 = MIU 248 with reserved bit 11; CC with MIUX 0800h = MIU 128)
     dict(family='corpus', miu=None, gb=['I', '01011302020878'], agf=False,
          script=[['ldl', 'a', None], ['sendto', 'a', 248, 16, 1], ['sendto', 'a', 300, 16, 2]]),
@@ -903,6 +946,56 @@ def learnt(ck):
             yield learnt_conn(rng, v, ('CONNECT', 'CC')[k - 1], rng.choice(RESERVED) | rng.randrange(0, 0x800), rng.random() < 0.5)
 
 
+def sweep_sec(miu, icv, kind, spare, n_first):
+    """secure data transfer, aggregation on: a first I / UI PDU of n_first octets, a second one that leaves `spare`
+    octets of the MIU when the ICV of the second PDU is (wrongly) left out of account, then a third small one"""
+    hs = 3 if kind == 'I' else 2
+    size = miu - (2 + hs + n_first + icv) - (2 + hs) - spare
+    if kind == 'I':
+        script = [['dlc', 'c', 40, 16, miu, 6, 2], ['send', 'c', n_first, 1], ['send', 'c', max(0, size), 2], ['send', 'c', 1, 3]]
+    else:
+        script = [['ldl', 'a', None], ['sendto', 'a', n_first, 16, 1], ['sendto', 'a', max(0, size), 17, 2], ['sendto', 'a', 1, 18, 3]]
+    return dict(family='sweep-sec-' + kind, miu=miu, agf=True, icv=icv, script=script)
+
+
+def gen_sec(rng):
+    """secure data transfer: several connections / connection-less sockets whose PDUs meet the aggregation budget at
+    budget-6 .. budget+2 (ICV included), acknowledgements and SNL in between"""
+    miu = pick_miu(rng)
+    icv = rng.choice([4, 4, 4, 8, 1])
+    script = []
+    used = 0
+    n = rng.randrange(2, 5)
+    for i in range(n):
+        kind = rng.choice('IIU')
+        hs = 3 if kind == 'I' else 2
+        if i < n - 1:
+            size = rng.choice([rng.randrange(0, 40), rng.randrange(0, max(1, miu // n))])
+        else:
+            size = miu - used - (2 + hs + icv) + rng.randrange(-6, 3)
+        size = max(0, size)
+        used += 2 + hs + size + icv
+        if kind == 'I':
+            key = 'c%d' % i
+            script += [['dlc', key, 40 + i, 10 + i, rng.choice([miu, 2175]), rng.randrange(2, 16), rng.randrange(1, 4)],
+                       ['send', key, size, i]]
+            if rng.random() < 0.3:
+                script += [['rx', key, 1, rng.randrange(0, 2)]]
+        else:
+            key = 'u%d' % i
+            script += [['ldl', key, None], ['sendto', key, size, 16 + i, i]]
+    if rng.random() < 0.3:
+        script.append(['snlreq', [[1, b'urn:nfc:sn:q'.hex()]]])
+    return dict(family='sec', miu=miu, agf=rng.random() < 0.9, icv=icv, script=script)
+
+
+def secure(rng, sc):
+    """a share of every family runs with secure data transfer active"""
+    if 'icv' not in sc and rng.random() < 0.3:
+        sc = dict(sc, icv=rng.choice([4, 4, 4, 8, 0]))
+    return sc
+
+
 def interleave(rng, sc):
     """now and then call collect() in the middle of the script"""
     if rng.random() < 0.3 and len(sc['script']) > 2:
@@ -926,13 +1019,19 @@ def scenarios(ck):
     for miu in range(128, 384 if quick else 2176):
         for d in ((1 + miu % 6,) if quick else range(1, 7)):
             yield sweep_first_unsized(miu, d, (miu + d) % 4)
+    # secure data transfer: the ICV of a second / third PDU at the edge of the aggregation budget
+    for miu in range(128, 200 if quick else 2176, 1 if quick else 3):
+        for spare in ((miu % 9 - 2,) if quick else range(-2, 7)):
+            yield sweep_sec(miu, 4, 'IU'[(miu + spare) % 2], spare, 10 + miu % 5)
+    for _ in range(300 if quick else 6000):
+        yield interleave(rng, gen_sec(rng))
     n = 4000 if quick else 60000
     gens = [(gen_sdres, 5), (gen_sdreq, 4), (gen_ui_pair, 5), (gen_first_plus_ack, 6), (gen_budget_snl, 4), (gen_dlc, 8),
             (gen_mix, 3), (gen_raw, 1)]
     tot = sum(w for _, w in gens)
     for g, w in gens:
         for _ in range(n * w // tot):
-            yield interleave(rng, g(rng))
+            yield secure(rng, interleave(rng, g(rng)))
     for _ in range(4 if quick else 40):
         yield gen_threaded(rng)
 
@@ -944,7 +1043,10 @@ def main():
                   'extraction: ExtrOcamlBasic only; extract/c10_run.ml driver; OCaml 4.13.1',
                   'harness/prop/c10.py: abstraction function alpha (controller state -> model state), script interpreter, '
                   'independent frame reader']
-    ck.assumptions = ['llc.sec is None (no encryption, icv_size = 0): the encrypted paths of collect/dispatch are not modelled',
+    ck.assumptions = ['secure data transfer: llc.sec is replaced by a test cipher (OpenSSL is absent here) with icv_size 0..8 whose '
+                      'ciphertext is the plaintext followed by the ICV; the theorems assume of the cipher only that encrypt lengthens the '
+                      'data by icv_size; a single encrypted UI / I PDU may carry MIU + ICV octets (collect() comment), every other frame '
+                      'at most MIU; key agreement (DPS) and decryption are not modelled',
                       'raw access point sockets with queued PDUs are excepted (hypothesis raw-idle of the theorems; the '
                       'monitor skips scenarios that send through a raw socket, the correspondence does not)',
                       'the receiver model covers pdu.decode framing, header, size and address checks and dispatch flattening; '
@@ -952,7 +1054,7 @@ def main():
                       'socket states are reached through the API except: ESTABLISHED by op_dlc (fields set as connect() does on '
                       'CC), CONNECT with queued CONNECT PDU by op_connectpdu, pending resolve requests by op_resolve '
                       '(statements of ServiceDiscovery.resolve before it waits); a threaded llc.resolve() is used in family resolve-thread']
-    ck.coq(gen=['CollectK'], targets=['Proofs/Collect.vo', 'Proofs/CollectRx.vo', 'Bridge/Collect.vo'], props='C10')
+    ck.coq(gen=['CollectK'], targets=['Proofs/Collect.vo', 'Proofs/CollectRx.vo', 'Proofs/CollectMiux.vo', 'Bridge/Collect.vo'], props='C10')
     mr = ck.model()
     if mr is None:
         ck.finish()
